@@ -305,6 +305,41 @@ class OpInterp(DictInterp):
                     return AScalar(Rat(0), "int")
                 if o is not None and not isinstance(o, AObj) and len(e.args) == 1 and isinstance(self.ev(e.args[0], env), AObj):
                     return NOTIMPL      # the special method of a built-in number / string does not know the DSL classes: it returns NotImplemented
+            if isinstance(f, ast.Attribute) and nm.startswith("_") and not nm.startswith("__") and dotted(f.value) in ("self", "cls") + tuple(DSL):
+                # a private helper of a DSL class called through self / the class: its body is followed
+                owner = env.get("self") if dotted(f.value) == "self" else None
+                cname = owner.cls if isinstance(owner, AObj) else (dotted(f.value) if dotted(f.value) in DSL else None)
+                if cname is None:
+                    for v0 in env.values():
+                        if isinstance(v0, AObj):
+                            cname = v0.cls
+                            break
+                c0 = self.repo.cls(cname) if cname else None
+                m0 = c0.find_method(nm) if c0 is not None else None
+                if m0 is not None and self.depth <= 8:
+                    args = [self.ev(a, env) for a in e.args]
+                    kwargs = {k.arg: self.ev(k.value, env) for k in e.keywords}
+                    static = any(isinstance(d0, ast.Name) and d0.id == "staticmethod" for d0 in m0.decorator_list)
+                    ps = params_of(m0)
+                    env2 = {}
+                    if not static:
+                        if not isinstance(owner, AObj):
+                            raise _Unknown("call %s" % src(e))
+                        env2[ps[0]] = owner
+                        ps = ps[1:]
+                    for p0, a0 in zip(ps, args):
+                        env2[p0] = a0
+                    for k0, v0 in kwargs.items():
+                        env2[k0] = v0
+                    for p0, d0 in zip(ps[len(ps) - len(m0.args.defaults):], m0.args.defaults):
+                        if p0 not in env2:
+                            env2[p0] = self.ev(d0, {})
+                    sub = OpInterp(self.repo, m0._module, self.depth + 1)
+                    try:
+                        sub.block(m0.body, env2)
+                    except _Ret as r:
+                        return r.v
+                    return None
             if isinstance(f, ast.Name):
                 r = self.repo.resolve_name(self.module, nm)
                 if isinstance(r, ast.FunctionDef):
